@@ -23,6 +23,7 @@ def ceq : Sc → Sc → Prop
   | .num a, .num b => a = b
   | .str a, .str b => a = b
   | .ts a, .ts b => a = b
+  | .tsz a, .tsz b => a = b
   | .miss _, .miss _ => True
   | _, _ => False
 
@@ -257,6 +258,11 @@ example : isInstance exB exA = true ∧ Rect exA ∧ Rect exB ∧ DefaultIndex e
 example : equals exA (.table exB) = true := by decide
 example : equals exA (.table { exB with units := ["m".toList, "text".toList, "mm".toList] }) = false := by decide
 example : exA.sub = exB.sub := rfl
+
+/-- tz-aware timestamps are equal iff they are the same instant; never equal to a tz-naive one -/
+example : equalOrSame (.tsz "1577880000000000000".toList) (.tsz "1577880000000000000".toList) = true ∧
+    equalOrSame (.tsz "1577880000000000000".toList) (.ts "1577880000000000000".toList) = false ∧
+    equalOrSame (.tsz "1577880000000000000".toList) (.tsz "1577876400000000000".toList) = false := by decide
 
 /-- `pd.NA` is a missing value like the others -/
 example : equals { exA with rows := [(.num "0".toList, [.num "1".toList, .str "p".toList, .miss .na])] }
